@@ -104,6 +104,7 @@ class Workspace:
         dst = os.path.join(bindir, "verif_runner.rs")
         if not os.path.exists(dst):
             shutil.copy2(os.path.join(VERIF, "native", "verif_runner.rs"), dst)
+            shutil.copy2(os.path.join(VERIF, "kani", "c18_reference.rs"), os.path.join(self.crate, "src", "verif_c18_reference.rs"))
             with open(os.path.join(self.crate, "src", "repl.rs"), "a") as f:
                 f.write("\n#[doc(hidden)]\npub fn __verif_check_bracket_closed(s: &str) -> bool {\n    check_bracket_closed(s.chars())\n}\n")
         env = dict(ENV, CARGO_TARGET_DIR=os.path.join(CACHE, "target-native"), RUSTFLAGS="-Awarnings")
